@@ -354,6 +354,21 @@ class MultiFit(FitBase):
         )
         _cost_functions.append(self._shared_cost_function)
         _cost_names.append(self._shared_cost_function.name)
+
+        # The shared cost replaces the cost functions of the chi2 fits, their parameter constraints have to be added back:
+        _shared_fits = [_fit for _fit in self._fits if _fit._cost_function.is_chi2]
+
+        def _member_constraint_cost():
+            return np.sum([_c.cost(_fit.parameter_values) for _fit in _shared_fits for _c in _fit.parameter_constraints])
+
+        self._nexus.add(Function(func=_member_constraint_cost, name="member_constraint_cost"), add_children=False)
+        self._nexus.add_dependency(name="member_constraint_cost", depends_on="parameter_values")
+        for _i, _fit_i in enumerate(self._fits):
+            if _fit_i._cost_function.is_chi2:
+                _constraints_name = "parameter_constraints%s" % _i
+                self._nexus.add(Alias(ref=_fit_i._nexus.get("parameter_constraints"), name=_constraints_name), add_children=False)
+                self._nexus.add_dependency(name="member_constraint_cost", depends_on=_constraints_name)
+        _cost_names.append("member_constraint_cost")
         self._cost_function = MultiCostFunction(singular_cost_functions=_cost_functions, cost_function_names=_cost_names)
         self._nexus.add_function(
             func=self._cost_function,
@@ -665,6 +680,7 @@ class MultiFit(FitBase):
             _gof_sum += self._shared_cost_function.goodness_of_fit(
                 *[self._nexus.get(_node_name).value for _node_name in self._shared_cost_function.arg_names]
             )
+            _gof_sum += self._nexus.get("member_constraint_cost").value
         for _constraint in self._fit_param_constraints:  # constraints of the multifit itself
             _gof_sum += _constraint.cost(self.parameter_values)
         return _gof_sum
